@@ -177,7 +177,7 @@ def violation_place(viol):
 
 
 # ----------------------------------------------------------------------------------------------
-def select_cases(ctx, cases, quick, n2=200, n3=300):
+def select_cases(ctx, cases, quick, n2=150, n3=250):
     rng = random.Random(ctx.seed)
     out = {}
     for k, lst in cases.items():
@@ -210,7 +210,7 @@ def run(ctx):
     if ctx.replay:
         replay = json.load(open(ctx.replay))["replay"]
         ids, formats = [replay["entry_id"]], (replay["format"],)
-    batch = bc.run_bbatch(ctx, ids=ids, formats=formats, converters=False)
+    batch = bc.run_bbatch(ctx, ids=ids, formats=formats, converters=False, c09_only=True)
     if replay and batch.cat[replay["entry_id"]]["schema"] != replay["schema"]:
         raise core.Inconclusive("the catalogue changed: entry %d is no longer the replay's schema" % replay["entry_id"])
     # ---- TLC: the builder machine enumerates call sequences and their expected outcome
@@ -251,7 +251,7 @@ def run(ctx):
         entry = batch.cat[u["id"]]
         for lang in bc.LANGS:
             bound = u["bind"].get(lang)
-            if not bound or (u["pkg"], lang) not in D or set(D[(u["pkg"], lang)]) != set(entry["B"]):
+            if not bound or (u["pkg"], lang) not in D or not set(entry["B"]) <= set(D[(u["pkg"], lang)]):
                 batch.stats["unit_lang_unbound:" + lang] += 1
                 continue
             pl = bc.Planner(entry, u, lang, bound)
@@ -554,6 +554,7 @@ def run(ctx):
         "tlc_cases": n_tlc_cases, "cases_selected": sum(len(v) for v in sel.values()),
         "entries": [batch.cat[i]["name"] for i in batch.ids], "entries_with_sequences_of_3": [batch.cat[i]["name"] for i in deep_ids],
         "units": dict(status), "units_not_observed": dict(not_exec), "call_plans_not_buildable": dict(plan_errors),
+        "ir_differs_from_derivation": sorted({x for u in batch.units.values() for x in u.get("ir_differs_from_derivation", [])})[:20],
         "cases_skipped": dict(cnt),
         "default_objects_not_obtainable": [list(p) for p in dproblems][:10],
         "per_clause": dict(per), "timing": batch.timing, "binding_selftest": binding,
@@ -573,8 +574,9 @@ def run(ctx):
         "into the package (verif_glue_gen.go); it is also compared with what Build() returns whenever Build() succeeds",
         "Go reports a plain constraint violation from the FINAL object (Validate in Build()): a violating value overwritten later is not "
         "expected to be reported; a failed nested builder whose target is assigned again later is not judged for Build() (counted nowhere else)",
-        "the option set itself (which options exist, their paths) is taken from the requirement's derivation in BuilderMC and must coincide "
-        "with cog's builder IR (name, assignment paths, methods), otherwise the unit is excluded and listed; C16/C17 own that derivation",
+        "the option set (which options exist, their argument counts) is taken from the requirement's derivation in BuilderMC and must be "
+        "found in cog's builder IR, otherwise the unit is excluded and listed (C16/C17 own that derivation); the option's TARGET paths are "
+        "the derived ones: generated code whose IR carries other paths is judged against the derivation (listed under ir_differs_from_derivation)",
         "packages that cog cannot generate or that do not compile are excluded and counted (units_not_observed): C02/C04's subject",
         "python arguments are passed as decoded JSON values (strings for enum members)",
     ]
